@@ -13,11 +13,14 @@ use vaporetto_rules::{
 };
 use vaporetto_tantivy::VaporettoTokenizer;
 
-const TEXTS: [&str; 16] = [
+const TEXTS: [&str; 20] = [
     "", "まぁ社長は火星猫だ", "これは12個のABCです", " ", "  \t ", "a\r\nb", "\n", "猫\n\n犬", "ｶﾞｷﾞ half-width ｱ", "１２３４５円", "x", "e\u{301}e\u{301}猫",
     "｢火星猫｣､まぁ良いだろう｡", "👨‍👩‍👧と猫", "火星猫\r", "a b  c",
+    // texts WITHOUT any ASCII character that contain non-ASCII keys of the normaliser's table (the normalised form has
+    // another character type, so the type filters merge / split differently)
+    "コ－ヒ－を飲む", "ラ－メン―タ―ボ～", "｢ｶﾞ｣･｢ｷﾞ｣", "１－２―３",
 ];
-const WSCONST: [&str; 7] = ["", "D", "G", "DR", "KG", "DRHTKOG", "H"];
+const WSCONST: [&str; 8] = ["", "D", "G", "DR", "KG", "DRHTKOG", "H", "T"];
 
 fn js(s: &str) -> String {
     let mut o = String::from("\"");
